@@ -15,7 +15,7 @@ replay = mc.replay
 
 def run(ctx):
     mc.run(ctx, "c12", "MCMetadata_c12_quick.cfg" if ctx.quick else "MCMetadata_c12.cfg", mc.W_C12, PREFIXES, (),
-           nsim=ctx.pick(60, 1500), nrand=ctx.pick(60, 2500), depth=ctx.pick(22, 30),
+           nsim=ctx.pick(50, 1500), nrand=ctx.pick(50, 2500), depth=ctx.pick(22, 30),
            rule="E2: TLC -simulate behaviours of MCMetadata replayed on the real writer/readers. E3: random rates n/d (integers, x/3, x/7, "
                 "x/1001, small fractions, below 1 Hz), file cadences 1-3600 s, subdirectory cadences 1-1000 files, 1980-2100, a "
                 "subdirectory boundary inside the modelled windows in 60% of the cases; ascending histories of single / dict-of-arrays / "
